@@ -1,5 +1,6 @@
 import Verif.Proofs.Peephole
 import Verif.Proofs.LangVM
+import Verif.Proofs.LangVMErr
 /-!
 # C34 — The bytecode VM is observationally equivalent to the interpreter; peephole optimisation
 does not change outcomes
@@ -86,6 +87,52 @@ open Verif.Model.Lang Verif.Model.Lang.VM in
 example : noCall (.and (.binary .lt (.binary .sub (.intLit .int 7) (.intLit .int 2)) (.intLit .int 4)) (.unary .not (.boolLit false))) = true ∧
     (compileExpr [] (.and (.binary .lt (.binary .sub (.intLit .int 7) (.intLit .int 2)) (.intLit .int 4)) (.unary .not (.boolLit false)))).isSome = true := by
   decide
+
+open Verif.Model.Lang Verif.Model.Lang.VM in
+/-- **simulation_expr_err_partial**: the *error case* for call-free L0 expressions.  If the evaluator
+stops `e` in state `s` with a user error of kind `k` (resp. an internal error of kind `k`), then the
+code compiled for `e` under a scope that strongly agrees with `s` (`AgreeS`: every scope name is bound
+in the environment and its slot holds the same value), placed anywhere (`pre ++ c ++ post`), runs from
+its first instruction by steps that neither log nor fail (`Reach`) to a configuration whose next
+`VM.step` stops the machine with `Step.userErr k` (resp. `Step.internalErr k`): same error class, same
+kind; the evaluator's trace is empty and its state unchanged, like the machine's (no log step, locals
+fixed by `Reach`).  The evaluator's out-of-fuel outcome is neither case.
+Missing for `C34_simulation`: `??`, invocations, statements (see `simulation_stmt_partial`), L1/L2. -/
+theorem simulation_expr_err_partial (p : Program) (tbl : Table) (n : Nat) (e : Expr) (s : State)
+    (hnc : noCall e = true)
+    (sc : Scope) (c : List Instr) (hc : compileExpr sc e = some c)
+    (locals : Locals) (hag : AgreeS sc s.env locals)
+    (pre post : List Instr) (stk : List Value) :
+    (∀ k, (eval p n e s).out = .userErr k →
+      ∃ pc' stk', Reach tbl (pre ++ c ++ post) locals (pre.length, stk) (pc', stk') ∧
+        VM.step tbl ⟨pre ++ c ++ post, pc', stk', locals⟩ = Step.userErr k) ∧
+    (∀ k, (eval p n e s).out = .internalErr k →
+      ∃ pc' stk', Reach tbl (pre ++ c ++ post) locals (pre.length, stk) (pc', stk') ∧
+        VM.step tbl ⟨pre ++ c ++ post, pc', stk', locals⟩ = Step.internalErr k) ∧
+    (eval p n e s).st = s ∧ (eval p n e s).tr = [] :=
+  ⟨fun k hk => sim_expr_err p tbl n e s _ hnc (by rw [hk]; rfl) sc c hc locals hag _ pre post stk rfl,
+   fun k hk => sim_expr_err p tbl n e s _ hnc (by rw [hk]; rfl) sc c hc locals hag _ pre post stk rfl,
+   eval_noCall_pure p n e s hnc⟩
+
+open Verif.Model.Lang Verif.Model.Lang.VM in
+-- non-vacuity: `true && (10 / x < 3)` with `x = 0` in slot 0 is call-free, compiles, the scope agrees
+-- strongly with the state, and the evaluator stops with the user error `divZero`
+example : noCall (.and (.boolLit true) (.binary .lt (.binary .div (.intLit .int 10) (.var "x")) (.intLit .int 3))) = true ∧
+    (compileExpr [("x", 0)] (.and (.boolLit true) (.binary .lt (.binary .div (.intLit .int 10) (.var "x")) (.intLit .int 3)))).isSome = true ∧
+    AgreeS [("x", 0)] [("x", .int .int 0)] [(0, .int .int 0)] ∧
+    (match (eval ⟨[], []⟩ 9 (.and (.boolLit true) (.binary .lt (.binary .div (.intLit .int 10) (.var "x")) (.intLit .int 3)))
+        ⟨[("x", .int .int 0)]⟩).out with | .userErr .divZero => true | _ => false) = true := by
+  refine ⟨by decide, by decide, ?_, by decide⟩
+  intro x i h
+  simp only [Scope.slot, List.find?, Option.map_eq_some_iff] at h
+  obtain ⟨a, ha, hi⟩ := h
+  split at ha
+  · next hx =>
+    cases ha; cases hi
+    have : "x" = x := by simpa using hx
+    subst this
+    exact ⟨.int .int 0, rfl, rfl⟩
+  · simp at ha
 
 -- non-vacuity: a jump over two rewritten windows, a window at a jump target left alone
 example : optimize exCode = .ok exOpt := by rfl
